@@ -3159,18 +3159,16 @@ func (c *current) onEnum1(name, values, annotations interface{}) (interface{}, e
 		Values:      make([]*EnumValue, len(vs)),
 		Annotations: toAnnotations(annotations),
 	}
-	// Assigns numbers in order. This will behave badly if some values are
-	// defined and other are not, but I think that's ok since that's a silly
-	// thing to do.
+	// A value without an explicit number is the previous value plus one (the
+	// first is 0) and an explicit number is kept as written, as in Apache Thrift.
 	next := 0
 	for idx, v := range vs {
-		ev := v.([]interface{})[0].(*EnumValue)
-		if ev.Value < 0 {
+		pair := v.([]interface{})[0].([]interface{})
+		ev := pair[0].(*EnumValue)
+		if explicit := pair[1].(bool); !explicit {
 			ev.Value = next
 		}
-		if ev.Value >= next {
-			next = ev.Value + 1
-		}
+		next = ev.Value + 1
 		en.Values[idx] = ev
 	}
 	return en, nil
@@ -3195,7 +3193,7 @@ func (c *current) onEnumValue1(docstr, name, value, annotations interface{}) (in
 	if value != nil {
 		ev.Value = int(value.([]interface{})[2].(int64))
 	}
-	return ev, nil
+	return []interface{}{ev, value != nil}, nil
 }
 
 func (p *parser) callonEnumValue1() (interface{}, error) {
